@@ -23,10 +23,10 @@ def run(ctx):
             ref, ref_err = None, str(e)
     import time
     t0 = time.time()
-    bins, berr, units = json_units(ctx, quick, 4 if quick else 50)
+    bins, berr, units = json_units(ctx, quick, 4 if quick else 16)
     log(f"[C06] {len(units)} units prepared in {time.time() - t0:.0f}s")
-    nvals = 4 if quick else 50
-    nrand = 1 if quick else 12
+    nvals = 4 if quick else 20
+    nrand = 1 if quick else 5
     k = 2 if quick else 5
     stats = {"schemas": 0, "kernel_rejected": 0, "types": 0, "unmodelled_types": 0, "values": 0, "alt_ops": 0, "alt_noncanonical": 0,
              "mut_ops": 0, "mut_changed": 0, "model_unrep": 0, "model_fuel": 0, "budget_skips": 0,
